@@ -64,7 +64,8 @@ def parse_sgrid(ds):
 
     sgrid_ax_names = sgrid.get_all_axes(ds)
     parsed_coords = {}
-    for ax_name in sgrid_ax_names:
+    # sorted: the axis order of the Grid must not depend on set iteration order (hash seed)
+    for ax_name in sorted(sgrid_ax_names):
         parsed_coords[ax_name] = sgrid.get_axis_positions_and_coords(ds, ax_name)
 
     sgrid_grid_kwargs = {"coords": parsed_coords}
@@ -90,7 +91,8 @@ def parse_comodo(ds):
 
     comodo_ax_names = comodo.get_all_axes(ds)
     parsed_coords = {}
-    for ax_name in comodo_ax_names:
+    # sorted: the axis order of the Grid must not depend on set iteration order (hash seed)
+    for ax_name in sorted(comodo_ax_names):
         parsed_coords[ax_name] = comodo.get_axis_positions_and_coords(ds, ax_name)
 
     comodo_grid_kwargs = {"coords": parsed_coords}
